@@ -182,8 +182,13 @@ where
         let mut connector: Option<Connector<T, P, B>> = Some(connector);
         let token = self.keys.lock().insert(key);
 
-        if let Some(connection) = inner.pop(token) {
+        if let Some(mut connection) = inner.pop(token) {
             trace!("connection found in pool");
+            if let Some(reused) = connection.reuse() {
+                // A shareable connection stays available to checkouts which
+                // happen before this one is polled.
+                inner.push(token, reused, self.as_ref());
+            }
             connector = None;
             return Checkout::new(
                 token,
